@@ -91,7 +91,9 @@ struct CConn {
 	bool decode_failed = false;
 	bool is_observer = false;
 	bool ended_this_step = false;
+	bool model_connected = false; bool local = true;
 	bool poisoned = false;   // a truncated frame was sent: nothing meaningful can follow on this stream
+	bool faulty = false;     // full send path or failing socket (C11): it may be dropped, others must not notice
 	bool unchecked = false;  // output is not compared with the model any more (slow reader, poisoned stream)
 	std::string ws_key;
 };
@@ -307,7 +309,7 @@ public:
 		int ci = batch_sink ? batch_conn : live_conn(op.conn);
 		if (ci < 0) { vd.stat["noop"]++; return; }
 		CConn &c = cc[ci];
-		if (c.client_ended || k.conns[c.kc].daemon_closed) {
+		if (c.client_ended || k.conns[c.kc].daemon_closed || !k.conns[c.kc].accepted) {
 			if (op.kind != END) { vd.stat["noop"]++; return; }
 		}
 		if (c.poisoned && op.kind != END && op.kind != WPLAN && op.kind != DRAIN) { vd.stat["noop"]++; return; }
@@ -428,6 +430,7 @@ public:
 			auto &wp = k.conns[c.kc].wplan;
 			for (int x : op.v) { simk::WriteDecision d; int kind = ((x % 4) + 4) % 4; d.kind = kind; d.n = (size_t)((x / 4) % 700 + 700) % 700; d.err = EPIPE; if (kind == simk::W_ERR) d.err = (x / 4) % 2 ? ECONNRESET : EPIPE; wp.push_back(d); }
 			vd.labels.insert("wplan");
+			c.faulty = true; c.unchecked = true;
 			return;
 		}
 		case DRAIN: k.drain(c.kc); return;
@@ -618,11 +621,24 @@ public:
 		}
 		for (auto &e : evs) {
 			switch (e.k) {
-			case ModelEvent::CONNECTED: m.connect(e.conn, e.local); break;
+			case ModelEvent::CONNECTED: cc[e.conn].local = e.local; break; // the model peer exists once the daemon accepted the connection (see judge_step)
 			case ModelEvent::MESSAGE: step_model_events++; if (!m.on_message(e.conn, e.msg, exp)) cc[e.conn].model_dropped = true; break;
 			case ModelEvent::INVALID: step_model_events++; if (m.peer(e.conn).alive) { m.drop(e.conn, exp); cc[e.conn].model_dropped = true; } break;
 			case ModelEvent::ENDED: m.drop(e.conn, exp); break;
 			case ModelEvent::ADVANCE: m.advance(e.ns, exp); break;
+			}
+		}
+		{
+			// C11 tolerance: where a delivery of this step went to a faulty peer, the requester may see an error that
+			// reports the failed delivery instead of the result; the request must still have taken effect.
+			bool touches_faulty = false;
+			for (auto &c : exp.by_conn) if ((size_t)c.first < cc.size() && cc[c.first].faulty && !c.second.empty()) touches_faulty = true;
+			if (touches_faulty) {
+				vd.stat["steps_touching_faulty"]++;
+				for (auto &c : exp.by_conn) for (auto &g : c.second) for (auto &x : g) {
+					if (x.k == model::Exp::RESULT && !x.forwarded) x.k = model::Exp::EITHER;
+					if (x.k == model::Exp::ROUTED && cc[c.first].faulty) exp.alt_refusal = true; // routed request that cannot be delivered: immediate error is fine
+				}
 			}
 		}
 		if (exp.alt_refusal) {
@@ -708,6 +724,7 @@ public:
 		// feed every not yet judged message that is a notification for a fetch of that connection
 		for (size_t ci = 0; ci < cc.size(); ci++) {
 			CConn &c = cc[ci];
+			if (c.unchecked) continue; // a peer that did not accept everything written to it is outside the replica guarantee
 			for (size_t i = c.checked; i < c.msgs.size(); i++) {
 				const Value &msg = c.msgs[i];
 				const Value *meth = msg.get("method"), *p = msg.get("params");
@@ -740,7 +757,7 @@ public:
 	{
 		for (size_t pi = 0; pi < m.peers.size() && pi < cc.size(); pi++) {
 			model::Peer &p = m.peers[pi];
-			if (!p.alive || cc[pi].client_ended || cc[pi].model_dropped) continue;
+			if (!p.alive || cc[pi].client_ended || cc[pi].model_dropped || cc[pi].unchecked) continue;
 			std::set<std::string> active;
 			for (auto &f : p.fetches) {
 				std::string key = js::dump(f.id);
@@ -776,6 +793,7 @@ public:
 			const simk::Conn &kc = k.conns[c.kc];
 			if (kc.aborted_in_accept) continue;
 			bool should_be_open = !c.client_ended && !c.model_dropped;
+			if (c.faulty && !c.client_ended) continue; // a faulty peer may or may not have been dropped yet
 			if (c.ws && !c.handshake_valid) should_be_open = false;
 			if (should_be_open && kc.daemon_closed) vd.add("model/healthy-connection-dropped", "conn " + std::to_string(ci) + " was closed by the daemon although it did nothing wrong");
 			if (!should_be_open && !kc.daemon_closed && kc.accepted) vd.add("model/connection-not-released", "conn " + std::to_string(ci) + " ended or violated the protocol but its descriptor is still open");
@@ -786,8 +804,21 @@ public:
 	void judge_step()
 	{
 		for (size_t ci = 0; ci < cc.size(); ci++) decode((int)ci);
+		for (size_t ci = 0; ci < cc.size(); ci++) {
+			CConn &c = cc[ci];
+			if (!c.model_connected && simk::K().conns[c.kc].accepted) { c.model_connected = true; m.connect((int)ci, c.local); if (have_alt) alt_model.connect((int)ci, c.local); }
+		}
 		if (opt.replica_check) replica_update();
 		if (opt.model_check) {
+			// a faulty peer may be dropped by the daemon at any time (its response could not be written, its socket failed):
+			// from then on it is an ordinary disconnect
+			for (size_t ci = 0; ci < cc.size(); ci++) {
+				CConn &c = cc[ci];
+				if (c.faulty && !c.client_ended && !c.model_dropped && simk::K().conns[c.kc].daemon_closed) {
+					c.model_dropped = true;
+					if (m.peer((int)ci).alive) { m.drop((int)ci, exp); if (have_alt) alt_model.drop((int)ci, alt_exp); vd.stat["faulty_peer_dropped"]++; }
+				}
+			}
 			std::string rule, detail;
 			model::StepExp x = exp;
 			bool use_alt = false;
